@@ -589,3 +589,9 @@ UNITS["SerializeImpl"] = dict(
     file=SZ, anchor=r"sonic_force_inline SonicError SerializeImpl\(const NodeType\* node,", rules=SER_RULES,
     sig_rules=[("node-type", r"\bNodeType\b", "Node")],
     must_fire=["parentctx", "emit-quote", "emit-i64", "emit-u64", "emit-f64", "stk-decl", "stk-push", "stk-top", "stk-pop", "node-call", "wb-t", "wb-n", "local-static-constexpr" if False else "wb-0"])
+
+# ------------------------------------------------------------------ dom/dynamicnode.h: the map comparator (C14)
+UNITS["DNode.Less"] = dict(
+    file="include/sonic/dom/dynamicnode.h", anchor=r"bool operator\(\)\(MSType s1, MSType s2\) const", cname="DNode_Less", rtype="bool", paren_skip=1,
+    rules=[("m-size", r"\.size\(\)", ".size_"), ("m-data", r"\.data\(\)", ".data_"), ("std-min", r"\bmin\(", "SPEC_MIN(")],
+    must_fire=["m-size", "m-data", "std-min"])
